@@ -1,6 +1,6 @@
 (* Props/C11.v -- property C11: Pabulib files parse to the election they describe and round-trip losslessly.
    Only statements closed by [exact]; the proofs live in Proofs/PabulibP.v; the model in Model/PabulibM.v. *)
-From PB Require Import Model.PabulibM Proofs.PabulibP.
+From PB Require Import Model.PabulibM Proofs.PabulibP Proofs.PabulibRT Proofs.PabulibNum.
 Open Scope list_scope.
 
 (* M csv_roundtrip.  The character-level codec (csv.writer with delimiter ';', minimal quoting, doubled quotes,
@@ -65,34 +65,51 @@ Theorem C11_split_list_cell_join : forall l,
 Proof. exact split_list_cell_join. Qed.
 Print Assumptions C11_split_list_cell_join.
 
-(* UNPROVED -- M parse_write_roundtrip and roundtrip_idempotent of DESIGN.md section 4 (C11).
-   The statements below are fixed in the model ([canon], [wf_electionb] are definitions of Model/PabulibM.v) and
-   are EXERCISED on every run: Oracle/C11.v codes 8 and 9 evaluate both sides on every generated election that
-   satisfies wf_electionb (with the decimal number text) and compare them literally.  They are not proved.
+(* M parse_write_roundtrip.  For ANY number-text functions that read back what they write as a clean cell
+   (hypotheses num_text / nat_text, stated as premises) and every well-formed election e -- any number of
+   projects, ballots, metadata columns, any of the four vote types, multiplicities, limits -- parsing the rows
+   the writer model produces gives exactly [canon e]: the META block as derived by the writer, every project with
+   name, exact cost, categories, targets and its metadata re-ordered by column, every ballot (a ballot of
+   multiplicity m as m ballots) with its content, points and voter metadata plus the voter_id the writer assigns,
+   and the limits with the format defaults normalised to 'no limit'. *)
+Theorem C11_parse_write_roundtrip :
+  forall (show_num : Q -> str) (read_num : str -> option Q) (show_nat : nat -> str) (read_nat : str -> option nat),
+  (forall q, Qcanon q = true ->
+     read_num (show_num q) = Some q /\ cell_ok (show_num q) = true /\ no_comma (show_num q) = true
+     /\ show_num q <> []) ->
+  (forall n, read_nat (show_nat n) = Some n /\ cell_ok (show_nat n) = true /\ not_keyword (show_nat n) = true) ->
+  forall e, wf_electionb show_num read_num show_nat read_nat e = true ->
+    parse_rows read_num read_nat (write_rows show_num show_nat e) = Some (canon show_num show_nat e).
+Proof. exact parse_write_roundtrip. Qed.
+Print Assumptions C11_parse_write_roundtrip.
 
-   Section RoundTrip.
-     Variables (show_num : Q -> str) (read_num : str -> option Q) (show_nat : nat -> str) (read_nat : str -> option nat).
-     Hypothesis num_text : forall q, Qcanon q = true ->
-        read_num (show_num q) = Some q /\ cell_ok (show_num q) = true /\ no_comma (show_num q) = true
-        /\ show_num q <> [].
-     Hypothesis nat_text : forall n, read_nat (show_nat n) = Some n /\ cell_ok (show_nat n) = true
-        /\ not_keyword (show_nat n) = true.
+(* the number text used for execution -- str(int), and str(mpq) = 'n' or 'n/d' of a reduced fraction, read back
+   by read_nat_dec / read_q_dec -- satisfies both hypotheses: they are discharged, not assumed *)
+Theorem C11_nat_text_dec : forall n,
+  read_nat_dec (show_nat_dec n) = Some n /\ cell_ok (show_nat_dec n) = true
+  /\ not_keyword (show_nat_dec n) = true.
+Proof. exact nat_text_dec. Qed.
+Print Assumptions C11_nat_text_dec.
 
-     Theorem parse_write_roundtrip : forall e,
-       wf_electionb show_num read_num show_nat read_nat e = true ->
-       parse_rows read_num read_nat (write_rows show_num show_nat e) = Some (canon show_num show_nat e).
+Theorem C11_num_text_dec : forall q, Qcanon q = true ->
+  read_q_dec (show_q_dec q) = Some q /\ cell_ok (show_q_dec q) = true
+  /\ no_comma (show_q_dec q) = true /\ show_q_dec q <> [].
+Proof. exact num_text_dec. Qed.
+Print Assumptions C11_num_text_dec.
 
-     Theorem roundtrip_idempotent : forall e,
-       wf_electionb show_num read_num show_nat read_nat e = true ->
-       let e1 := canon show_num show_nat e in
-       wf_electionb show_num read_num show_nat read_nat e1 = true
-       /\ election_eqb true (canon show_num show_nat e1) e1 = true.
-       (the second conjunct up to the order of dictionary entries: Leibniz equality fails only in the position
-        of META limit entries that have become defaults; election_eqb is defined in Oracle/C11.v)
-   End RoundTrip.
+(* hence, for the executable instance, without any hypothesis on number text *)
+Theorem C11_parse_write_roundtrip_x : forall e,
+  wf_election_x e = true -> parse_rows_x (write_rows_x e) = Some (canon_x e).
+Proof. exact parse_write_roundtrip_x. Qed.
+Print Assumptions C11_parse_write_roundtrip_x.
 
-   What is proved towards them: C11_csv_roundtrip (character level, complete), C11_split_join (vote / points /
-   category cells), C11_parse_faithful* (the limit normalisation used by [canon]). *)
+(* and through the character-level codec (C11_csv_roundtrip): the FILE the writer model produces parses to
+   [canon e], provided no cell of it contains a line-break character *)
+Theorem C11_parse_file_roundtrip_x : forall e,
+  wf_election_x e = true -> rows_no_linebreak (write_rows_x e) ->
+  parse_file_x (write_file_x e) = Some (canon_x e).
+Proof. exact parse_file_roundtrip_x. Qed.
+Print Assumptions C11_parse_file_roundtrip_x.
 
 (* non-vacuity: a concrete election of the model with separators and quotes in names and metadata, a decimal
    cost, a cost limit below the budget and a default length limit; it is well-formed, its round trip through
